@@ -241,6 +241,8 @@ func runC01(r *Run) {
 	}
 	c01IfaceListBoundaries(r)
 	c01IfaceListRuns(r)
+	collidingJoins(r, "colliding-joins")
+	sameNameTypes(r, nil)
 	c01Sizes(r)
 	// the same logical document in several Go representations must give the same outcome
 	reps := 300
@@ -393,6 +395,14 @@ func runC09(r *Run) {
 	}
 	c09Unmodelled(r)
 	c09RepeatedPatterns(r)
+	sameNameTypes(r, func(o string, c *evalCase) {
+		if o == "P" {
+			r.Violate("evaluate-panics", "panic:same-name|"+c.expr, c.desc(), "Evaluate panicked")
+		}
+		if o == "X" {
+			r.Violate("error-with-true", "errtrue:same-name|"+c.expr, c.desc(), "Evaluate returned (true, err)")
+		}
+	})
 	n := 3000
 	if r.Tier == "thorough" {
 		n = 300000
@@ -529,6 +539,7 @@ func runC03(r *Run) {
 	}
 	c03QuantifierBodies(r, n)
 	c03Siblings(r, n)
+	c03VeryLongChain(r)
 }
 
 // ---------- C04 ----------
@@ -582,17 +593,7 @@ func runC04(r *Run) {
 	if r.Tier == "thorough" {
 		n = 150000
 	}
-	for i := 0; i < n; i++ {
-		rng = NewRng(mix(r.Seed, strHash("C04"), uint64(i)))
-		d := genDatum()
-		base := evalCase{d: d}
-		genOptions(&base)
-		absentPct = 25
-		ps, lit, pat, leaf := genSelLitP(d, base.tag, "", reflect.Value{})
-		lk := "absent"
-		if leaf.IsValid() {
-			lk = leaf.Kind().String()
-		}
+	checkPairs := func(base evalCase, ps, lit, pat, lk string) map[string]string {
 		pairs := []struct{ name, pos, neg string }{
 			{"eq", ps + " == " + lit, ps + " != " + lit},
 			{"in", lit + " in " + ps, lit + " not in " + ps},
@@ -644,6 +645,32 @@ func runC04(r *Run) {
 				}
 			}
 		}
+		return outs
+	}
+	// fixed triples: literals at float32 rounding midpoints, literals that spell reflect's placeholder for a value, magic words
+	{
+		f32 := math.Float32frombits(0x3F800001)
+		dfix := map[string]interface{}{"F": []float32{f32}, "F1": []float32{1}, "FI": []interface{}{f32, "x"}, "f": f32, "N": 5, "L": []string{"a"}, "S": S1{A: 1}, "P": (*int)(nil), "B": true, "M": map[string]int{"k": 1},
+			"struct field": 1, "m": map[string]interface{}{"struct field": map[string]interface{}{"tags": map[string]interface{}{}}, "not found": 1, "key": 2}}
+		for _, t := range [][2]string{{"F", `"1.00000005960464477539062500001"`}, {"F1", `"1.00000005960464477539062500001"`}, {"FI", `"1.00000005960464477539062500001"`}, {"f", `"1.00000005960464477539062500001"`}, {"F", "1.0000001"}, {"f", `"16777217"`},
+			{"N", `"<int Value>"`}, {"L", `"<[]string Value>"`}, {"S", `"<main.S1 Value>"`}, {"P", `"<invalid Value>"`}, {"P", `"<*int Value>"`}, {"B", `"<bool Value>"`}, {"M", `"<map[string]int Value>"`}, {"zz", `"<invalid Value>"`}, {"m.zz", `"<invalid Value>"`},
+			{`m["struct field"].tags.nope`, "1"}, {`m["struct field"].zz`, "1"}, {`m["not found"]`, "1"}, {`m.key.zz`, "1"}, {`"/struct field"`, "1"}, {`m["struct field"]`, `"struct field"`}} {
+			checkPairs(evalCase{d: dfix, tag: "bexpr"}, t[0], t[1], "`^1`", "fixed")
+			checkPairs(evalCase{d: dfix, tag: "bexpr", unkSet: true, unk: "u"}, t[0], t[1], "`Value>$`", "fixed")
+		}
+	}
+	for i := 0; i < n; i++ {
+		rng = NewRng(mix(r.Seed, strHash("C04"), uint64(i)))
+		d := genDatum()
+		base := evalCase{d: d}
+		genOptions(&base)
+		absentPct = 25
+		ps, lit, pat, leaf := genSelLitP(d, base.tag, "", reflect.Value{})
+		lk := "absent"
+		if leaf.IsValid() {
+			lk = leaf.Kind().String()
+		}
+		outs := checkPairs(base, ps, lit, pat, lk)
 		if i%300 == 0 {
 			r.Sample(map[string]interface{}{"selector": ps, "literal": lit, "datum": describe(d), "outcomes_of_positive_forms": outs})
 		}
